@@ -10,6 +10,8 @@
 (*   NoLostHit   real score >= t  =>  8-bit score >= scale(t)              *)
 (*   Monotone    scale is non-decreasing on the logged scores              *)
 (*   no panic in the in-contract call                                      *)
+(*   dscan events: the Scanner (the pre-filter's user) run to exhaustion   *)
+(*   reports every position whose real score meets the threshold           *)
 (* Advisory notes: cells equal the exact round-up (or one more), the       *)
 (* 8-bit score is the saturating sum of the logged matrix.                 *)
 (* `overflow` in the diagnostic says whether some window's plain cell sum  *)
@@ -22,7 +24,17 @@ VARIABLES l, st
 Rec == ndJsonDeserialize(IOEnv.TRACE)
 InitState == 0
 
-Apply(s, e) ==
+(* dscan: the pre-filter as used by the Scanner, run to exhaustion: no position meeting the threshold is lost *)
+ApplyScan(s, e) ==
+  LET W == e.K - 1
+      n == NScores(Len(e.seq), Len(e.pssm))
+      hits == {e.hits[q] : q \in 1..Len(e.hits)}
+      lost == {i \in 0..(n - 1) : WindowScore(e.pssm, e.seq, i, W) >= e.thr /\ i \notin hits}
+  IN IF e.ret # "ok" THEN [ok |-> FALSE, st |-> s, exp |-> [why |-> "panic", overflow |-> FALSE]]
+     ELSE [ok |-> lost = {}, st |-> s,
+           exp |-> [why |-> "lost_hit_in_scanner", overflow |-> FALSE, position |-> IF lost # {} THEN CHOOSE i \in lost : TRUE ELSE -1]]
+
+ApplyScore(s, e) ==
   LET W == e.K - 1
       L == Len(e.seq)  M == Len(e.pssm)  n == NScores(L, M)
       R == NRows(L, e.C)
@@ -50,6 +62,8 @@ Apply(s, e) ==
                     position |-> IF under # {} THEN CHOOSE i \in under : TRUE ELSE IF lost # {} THEN CHOOSE i \in lost : TRUE ELSE -1],
            note |-> IF ~discok THEN "discretised cells are not the exact round-up (+0/+1)"
                     ELSE IF ~satok THEN "8-bit score is not the saturating sum of the discretised cells" ELSE ""]
+
+Apply(s, e) == IF e.ev = "dscan" THEN ApplyScan(s, e) ELSE ApplyScore(s, e)
 
 TK == INSTANCE TraceKit
 Spec == TK!TKSpec
